@@ -61,7 +61,7 @@ class Core(object):
     """Behaviour shared by the sync and the async in-memory transport."""
 
     def __init__(self, sim, clock, monitor=None, frag="whole", empty_rate=0.0, rng=None, writecap=None, faults=None,
-                 refuse_connect=None, budget=None, stall=None, frag_offsets=None):
+                 refuse_connect=None, budget=None, stall=None, frag_offsets=None, timeouts_cost_time=True):
         self.sim = sim
         self.clock = clock
         self.monitor = monitor
@@ -74,6 +74,7 @@ class Core(object):
         self.refuse_connect = refuse_connect  # exception instance to raise from connect()
         self.budget = budget              # max transport calls between reset_budget() calls
         self.stall = stall                # None | 'eof' : nothing to read -> b'' instead of a timeout
+        self.timeouts_cost_time = timeouts_cost_time  # False: a read that times out does not advance the virtual clock (C06: keeps a known finding's 10 s stall from hitting bystanders)
         self.frag_offsets = frag_offsets  # optional set of stream offsets (device byte stream) at which reads are cut
         self.ncalls = 0
         self.calls_in_op = 0
@@ -189,7 +190,8 @@ class Core(object):
                 return b""
             if timeout is None:
                 raise Hang("bulk_read(%d, None) with a silent device blocks forever" % numbytes)
-            self.clock.advance(max(timeout, 0))
+            if self.timeouts_cost_time:
+                self.clock.advance(max(timeout, 0))
             self.timeouts_raised += 1
             raise TimeoutError_("Reading timed out (%s seconds, virtual)" % (timeout,))
         if self.empty_rate and self.rng.random() < self.empty_rate:
